@@ -830,6 +830,32 @@ def rule_shapes(facts):
     return r
 
 
+def rule_window_size(facts, rid="C01.R4b"):
+    """The window is built with the dictionary size decided by the header parser (or given by the caller of the raw
+    decoder), as is: any arithmetic on the way changes the wrap position and the bound of the distance guards."""
+    r = report.RuleResult(rid, "every circular window is constructed with params.dict_size unmodified")
+    n = 0
+    for b in facts.bodies:
+        if b.promoted is not None:
+            continue
+        tm = None
+        for blk in b.calls():
+            if not (flow.callee(blk.term) or "").endswith("LzCircularBuffer::from_stream"):
+                continue
+            n += 1
+            tm = tm or Terms(b)
+            a = tm.of_operand(blk.term.args[1])
+            base = pat.strip(a)
+            if pat.spine_ops(a) or not (isinstance(base, tuple) and base[0] == "field" and base[1] == "dict_size"):
+                r.bad("%s|window-size" % short(b.name), "the window is constructed with %s instead of the dictionary size as decided by the "
+                      "header parser / given by the caller" % flow.show(a)[:80], pat.where(b, blk.idx))
+            else:
+                r.ok("provenance", {"fn": short(b.name), "dict_size": flow.show(a)[:60]})
+    r.sites = n
+    r.need("constructions of the circular window (found %d)" % n, n >= 2)
+    return r
+
+
 def rule_state_writers(facts, rid="C01.R7"):
     """The decoder state (automaton state, repeat distances, every probability table) is touched only by the symbol
     decoder family (the functions carrying the `update` flag), the constructor and reset_state; the size in effect only
@@ -898,7 +924,7 @@ def run(ctx, t0):
     pat.FACTS = facts
     from rules import rcterms
     rules = [rule_header(facts), rule_automaton(facts), rule_contexts(facts), rule_window(facts), rule_shapes(facts),
-             rcterms.rule_rangedecoder(facts), rule_state_writers(facts), _c09_guards(facts)]
+             rcterms.rule_rangedecoder(facts), rule_state_writers(facts), _c09_guards(facts), rule_window_size(facts)]
     expl = ("Static, structural clauses only: the finite tables (state automaton constants and thresholds, repeat "
             "rotation, table shapes and initialisers), the index/offset/length terms and the who-writes facts of the "
             "circular window are extracted from MIR and compared with the format's. This is a necessary condition of "
